@@ -22,6 +22,7 @@ var c15Progs = []struct {
 	{"disp_resb", "{B} EQU 4\n{A}:\n\tMOV AX,[BX+{B}]\n\tRESB 0x20-$\n\tDW {A}\n{C} EQU {B}*2\n\tRESB {C}\n", 3, false},
 	{"org_prog", "\tORG 0x7c00\n{A}:\n\tMOV SI,{B}\n\tJMP {C}\n{B}:\n\tDB \"x\",0\n{C}:\n\tJNZ {A}\n\tDW {B}\n", 3, false},
 	{"mem_label", "\tMOV AX,[{A}]\n\tADD WORD [{B}],1\n\tCMP BYTE [{C}],0\n\tMOV [{A}],BX\n\tSUB CX,[{B}]\n\tNOT WORD [{C}]\n\tHLT\n{A}:\n\tDW 0\n{B}:\n\tDW 0\n{C}:\n\tDB 0\n", 3, false},
+	{"char_literal", "{A}:\n\tMOV AL,'a'\n\tCMP AL,'z'\n\tMOV BX,{A}\n\tDB 'A','Z'\n{B}:\n\tMOV CX,'a'+1\n\tDW {B}\n", 2, false},
 	{"wcoff", "[FORMAT \"WCOFF\"]\n[INSTRSET \"i486p\"]\n[BITS 32]\n[FILE \"f.nas\"]\n\tGLOBAL {A}, {B}\n[SECTION .text]\n{A}:\n\tRET\n{B}:\n\tMOV EAX,1\n\tRET\n{C}:\n\tHLT\n", 3, true},
 	{"wcoff_one_by_one", "[FORMAT \"WCOFF\"]\n[BITS 32]\n\tGLOBAL {C}\n\tGLOBAL {A}\n[SECTION .text]\n{A}:\n\tNOP\n{B}:\n\tRET\n{C}:\n\tMOV ECX,[ESP+4]\n\tRET\n", 3, true},
 }
@@ -29,7 +30,9 @@ var c15Progs = []struct {
 var c15Names = []string{"a", "aa", "a_", "A", "_a", "a1", "z", "Z9", "y_", "n234567890123456789012345678901234567890", "prefix89", "prefix89x", "prefix89y", "prefix89xy", "prefix89xyz", "kbd_wait", "mmio_done", "xmm_save", "Kick", "bnd_1", "zmm", "st_top", "cr_x", "dr7x",
 	"n23456789012345678901234567890123456789X", "Aa", "aA",
 	// upper-case names that contain a register name (AL in VALUE, BL in TABLE, GS in FLAGS, AX in MAXLEN, ES in RESULT, ...)
-	"VALUE", "TABLE", "FLAGS", "MAXLEN", "RESULT", "XEAX", "CSEG", "AXIS", "ESP_SAVE", "CR0_COPY"}
+	"VALUE", "TABLE", "FLAGS", "MAXLEN", "RESULT", "XEAX", "CSEG", "AXIS", "ESP_SAVE", "CR0_COPY",
+	// names that BEGIN with a register name, a mnemonic, a directive or a reserved word
+	"AL1", "SPtr", "INIT", "RETRY", "ADDR", "MOVE", "CALLBACK", "DBG", "ORGX", "EQUAL", "DWORDS", "BYTES", "SHORTCUT", "NEARBY", "FARM", "GLOBALS", "EXTERNAL", "RESBUF", "PTR1", "HLTX"}
 
 func c15Fill(tmpl string, names [3]string) string {
 	s := strings.ReplaceAll(tmpl, "{A}", names[0])
@@ -40,7 +43,7 @@ func c15Fill(tmpl string, names [3]string) string {
 func c15Scenario(tier string) *core.Scenario {
 	names := c15Names
 	if tier != "thorough" {
-		names = []string{"a", "aa", "A", "a_", "aA", "prefix89", "prefix89x", "prefix89xy", "n234567890123456789012345678901234567890", "n23456789012345678901234567890123456789X", "Z9", "kbd_wait", "mmio_done", "xmm_save", "Kick", "VALUE", "FLAGS", "MAXLEN"}
+		names = []string{"a", "aa", "A", "a_", "aA", "prefix89", "prefix89x", "prefix89xy", "n234567890123456789012345678901234567890", "n23456789012345678901234567890123456789X", "Z9", "kbd_wait", "mmio_done", "xmm_save", "Kick", "VALUE", "FLAGS", "MAXLEN", "AXIS", "INIT", "EQUAL", "SHORTCUT"}
 	}
 	ref := [3]string{"first_sym", "second_sym", "third_sym"}
 	return &core.Scenario{
